@@ -14,6 +14,7 @@ mod fscomp;
 mod fuzz;
 mod header;
 mod history;
+mod histstack;
 mod integrity;
 mod keys;
 mod mem;
